@@ -102,7 +102,10 @@ def preorder(tree):
 
 def _dt_key(dt):
     if isinstance(dt, datetime):
-        off = dt.utcoffset()
+        try:
+            off = dt.utcoffset()
+        except Exception as e:  # noqa: BLE001 - a zone object built from a broken VTIMEZONE may fail lazily (dateutil)
+            return ("datetime", dt.replace(tzinfo=None).isoformat(), f"utcoffset-raises:{type(e).__name__}", None)
         zid = getattr(dt.tzinfo, "key", None) or getattr(dt.tzinfo, "zone", None) or getattr(dt.tzinfo, "_tzid", None) or (dt.tzname() if dt.tzinfo else None)
         return ("datetime", dt.replace(tzinfo=None).isoformat(), None if off is None else off.total_seconds(), zid)
     if isinstance(dt, date):
